@@ -133,8 +133,82 @@ func nameEscapeSet(c *core.Ctx, o *core.Ob) core.ByteSet {
 		}
 	}
 	if !okFmt {
-		// alternative: manual hex digits — not recognised
-		o.Fail("formatName: no '#%%02x' escape emission found")
+		// the same by hand: three bytes '#', digits[c>>4], digits[c&15] (a literal or three
+		// appended values), digits being the sixteen hexadecimal digits in order
+		info := fn.Info()
+		hexTable := func(e ast.Expr) bool {
+			if sv, ok := core.StringConst(info, e); ok {
+				return sv == "0123456789abcdef" || sv == "0123456789ABCDEF"
+			}
+			if tv, ok := core.ObjOf(info, e).(*types.Var); ok && tv.Pkg() != nil && tv.Parent() == tv.Pkg().Scope() {
+				if _, init, ipkg := c.Prog.Var("pdf", tv.Name()); init != nil {
+					if sv, ok := core.StringConst(ipkg.TypesInfo, init); ok {
+						return sv == "0123456789abcdef" || sv == "0123456789ABCDEF"
+					}
+					if conv, isConv := ast.Unparen(init).(*ast.CallExpr); isConv && len(conv.Args) == 1 {
+						if sv, ok := core.StringConst(ipkg.TypesInfo, conv.Args[0]); ok {
+							return sv == "0123456789abcdef" || sv == "0123456789ABCDEF"
+						}
+					}
+				}
+			}
+			return false
+		}
+		nibble := func(e ast.Expr, high bool) bool {
+			ix, ok := ast.Unparen(e).(*ast.IndexExpr)
+			if !ok || !hexTable(ix.X) {
+				return false
+			}
+			be, ok := ast.Unparen(peelConv(info, ix.Index)).(*ast.BinaryExpr)
+			if !ok {
+				return false
+			}
+			k, isK := core.IntConst(info, be.Y)
+			if high {
+				return isK && be.Op == token.SHR && k == 4
+			}
+			return isK && (be.Op == token.AND && k == 15 || be.Op == token.REM && k == 16)
+		}
+		triple := func(es []ast.Expr) bool {
+			if len(es) != 3 {
+				return false
+			}
+			k, isK := core.IntConst(info, es[0])
+			return isK && k == '#' && nibble(es[1], true) && nibble(es[2], false)
+		}
+		manual, partial := false, false
+		ast.Inspect(fn.Decl, func(n ast.Node) bool {
+			switch x := n.(type) {
+			case *ast.CompositeLit:
+				var es []ast.Expr
+				for _, el := range x.Elts {
+					if kv, isKV := el.(*ast.KeyValueExpr); isKV {
+						el = kv.Value
+					}
+					es = append(es, el)
+				}
+				if triple(es) {
+					manual = true
+				} else if len(es) == 3 {
+					if k, isK := core.IntConst(info, es[0]); isK && k == '#' {
+						partial = true
+					}
+				}
+			case *ast.CallExpr:
+				if core.CalleeKey(info, x) == "builtin.append" && len(x.Args) == 4 && triple(x.Args[1:]) {
+					manual = true
+				}
+			}
+			return true
+		})
+		if manual {
+			okFmt = true
+		} else if partial {
+			o.Fail("formatName: the escape is written by hand and is not '#' followed by the high and the low hexadecimal digit of the byte")
+		}
+	}
+	if !okFmt {
+		o.Unrec("formatName: how an escaped byte is written was not found (neither a '#%%02x' format nor three bytes written by hand)")
 	}
 	return E
 }
